@@ -55,18 +55,16 @@ Definition c18_check (c : c18_case) : bool :=
 
 (* finding signatures (known_findings.d/C18.json) *)
 Definition F_set_race : N := 1.
-Definition F_garbage_status : N := 2.
 Definition F_shared_flight : N := 3.
 
 (* every SetCurrentRevision on the local backend must carry the revision of a successful fetch: none on the
-   leader, none when the fetch failed; the value 0 adopted from an unparsable 200 answer is finding F2 *)
+   leader, none when the fetch failed (an unparsable 200 answer is a failed fetch) *)
 Definition set_verdict (r : role) (l : reach) (e : effects) : option N :=
   match f_set e with
   | None => None
   | Some v =>
       match r, l with
       | Follower, ReachOk rev => ok_if (v =? rev)
-      | Follower, Garbage200 => if v =? 0 then Some F_garbage_status else Some 0
       | _, _ => Some 0
       end
   end.
@@ -87,8 +85,7 @@ Definition role_row_rest (k : kind) (r : role) (l : reach) (e : effects) : optio
                 (* data was read locally: only after a successful fetch of the leader's revision *)
                 match l with
                 | ReachOk rev => ok_if (f_fetch e && opt_eqb N.eqb (f_set e) (Some rev))
-                | Garbage200 => Some F_garbage_status
-                | Unreachable | Err400 => Some 0
+                | Unreachable | Err400 | Garbage200 => Some 0
                 end
             end
           else
@@ -122,10 +119,7 @@ Definition c18_oracle (c : c18_case) : option N :=
          a failed fetch must make B fail and must not touch the read revision *)
       let a_ok := (r <=? a_scan) && a_nonempty in
       match l with
-      | Unreachable | Err400 => ok_if (rclass_eqb b_resp RespError && list_eqb N.eqb sets [r] && a_ok)
-      | Garbage200 =>
-          if existsb (N.eqb 0) sets then Some F_garbage_status
-          else ok_if (rclass_eqb b_resp RespError && a_ok)
+      | Unreachable | Err400 | Garbage200 => ok_if (rclass_eqb b_resp RespError && list_eqb N.eqb sets [r] && a_ok)
       | ReachOk _ => ok_if a_ok
       end
   end.
